@@ -692,6 +692,8 @@ impl ValueParser {
 
 #[inline(never)]
 fn scalar_from_bytes<T: Copy>(bytes: &Bytes) -> T {
+    #[cfg(feature = "verif")]
+    crate::verif::probe::check("parser::scalar_from_bytes", bytes.len(), std::mem::size_of::<T>());
     let ptr = bytes.as_ptr();
     unsafe { std::ptr::read_unaligned::<T>(ptr as *const T) }
 }
